@@ -30,6 +30,9 @@ Decoder BinaryIStream::make_decoder(size_t n)
     }
     std::vector<uint8_t> vec(n);
     s_.read(reinterpret_cast<char*>(vec.data()), n);
+    if (static_cast<size_t>(s_.gcount()) != n) {
+        throw parse_error("make_reader: reading from the stream failed.");
+    }
     pos_ += n;
     return Decoder(std::move(vec));
 }
